@@ -1130,6 +1130,45 @@ func PeekClock() (time.Time, bool) {
 	return clockNow, clockSet
 }
 
+// SimProcs is the processor count the simulated program sees (runtime.GOMAXPROCS / runtime.NumCPU).
+var SimProcs = 4
+
+// GOMAXPROCS, NumCPU, Gosched, NumGoroutine stand in for the runtime functions of the same name.
+func GOMAXPROCS(n int) int {
+	if !active {
+		return runtime.GOMAXPROCS(n)
+	}
+	return SimProcs
+}
+
+func NumCPU() int {
+	if !active {
+		return runtime.NumCPU()
+	}
+	return SimProcs
+}
+
+func Gosched() {
+	if !active || cur == nil {
+		runtime.Gosched()
+		return
+	}
+	point(cur, -1, ClsSync, true)
+}
+
+func NumGoroutine() int {
+	if !active {
+		return runtime.NumGoroutine()
+	}
+	n := 0
+	for _, t := range tasks {
+		if !t.done {
+			n++
+		}
+	}
+	return n
+}
+
 // Sleep is the instrumented time.Sleep: the simulated clock moves on by d and the task offers the baton.
 func Sleep(d time.Duration) {
 	if !active || cur == nil {
